@@ -40,6 +40,8 @@ func (o *Obligation) Key() string {
 
 // Result is what one rule set (one property) produced.
 type Result struct {
+	Filter func(o *Obligation) bool // non-nil while a scoped borrowed rule set runs
+
 	Property    string
 	Obligations []*Obligation
 	Broken      []string // anchors that did not resolve, floors not met: check broken, exit 2
@@ -58,6 +60,10 @@ func NewResult(prop string) *Result {
 }
 
 func (r *Result) Add(o *Obligation) *Obligation {
+	// a scoped borrow keeps only the obligations that are necessary conditions of the borrowing property
+	if r.Filter != nil && !r.Filter(o) {
+		return o
+	}
 	// keys must be unique: repeated constructs in one function get an ordinal (source order)
 	if r.seen == nil {
 		r.seen = map[string]int{}
@@ -109,7 +115,12 @@ func (r *Result) Break(format string, args ...interface{}) {
 }
 
 // Floor demands at least n obligations of the rule (vacuity guard).
-func (r *Result) Floor(rule string, n int) { r.floors[r.qualify(rule)] = n }
+func (r *Result) Floor(rule string, n int) {
+	if r.Filter != nil {
+		return // floors of a partially borrowed rule set are enforced by the owning property's check
+	}
+	r.floors[r.qualify(rule)] = n
+}
 
 // qualify prefixes rules borrowed from another property's rule set (e.g. C02.N3 run as part of C05 becomes C05/C02.N3).
 func (r *Result) qualify(rule string) string {
@@ -118,6 +129,8 @@ func (r *Result) qualify(rule string) string {
 	}
 	return r.Property + "/" + rule
 }
+
+// (Filter is set by rules.Run while a scoped borrowed rule set runs.)
 
 // Finding is one entry of known_findings.json.
 type Finding struct {
